@@ -35,7 +35,7 @@ namespace TAO_PEGTL_NAMESPACE::internal
                 typename... States >
       [[nodiscard]] static bool match( ParseInput& in, States&&... st )
       {
-         if( Control< Cond >::template match< A, M, Action, Control >( in, st... ) ) {
+         if( Control< Cond >::template match< A, ( Default ? rewind_mode::required : M ), Action, Control >( in, st... ) ) {
             (void)Control< must< Rules... > >::template match< A, M, Action, Control >( in, st... );
             return true;
          }
